@@ -93,9 +93,17 @@ pub fn gen_graph_project(rng: &mut Rng, tier: Tier, ptr: usize) -> Project {
             let base = *rng.pick(&["u8", "i8", "u16", "u32", "i32", "u64"]);
             let mut base_ty = Ty::Prim(base);
             let mut calign = p.ty_size_align(&base_ty).1;
-            if rng.chance(1, 8) {
+            if rng.chance(1, 6) {
+                // Over another enum, or (rarely written, but accepted) over a type.
+                let over_type = rng.chance(1, 3);
                 let enums: Vec<usize> = (0..idx)
-                    .filter(|&j| matches!(p.items[j].kind, ItemKind::Enum { .. }))
+                    .filter(|&j| {
+                        if over_type {
+                            matches!(p.items[j].kind, ItemKind::Type { .. })
+                        } else {
+                            matches!(p.items[j].kind, ItemKind::Enum { .. })
+                        }
+                    })
                     .collect();
                 if !enums.is_empty() {
                     let j = *rng.pick(&enums);
